@@ -432,10 +432,10 @@ Inductive rop :=
 | ROpen
 | RCompress (keep : bool)       (* compress_file(keep_original=keep) *)
 | RDecompress (keep : bool)     (* decompress_file(keep_original=keep, overwrite=True) *)
-| RScratch.                     (* decompress_to_scratch(scratch_dir) *)
+| RScratch (sd : bool).         (* decompress_to_scratch(scratch_dir) : sd = a scratch directory is given / None *)
 
-(* object + which data files exist *)
-Record rstate := mkS { s_obj : robj; s_eb : bool; s_ec : bool }.
+(* object + which data files exist: x.bin, x.cbin, scratch/x.bin *)
+Record rstate := mkS { s_obj : robj; s_eb : bool; s_ec : bool; s_sb : bool }.
 
 (* decompress_file(keep_original=False), after the files were switched:
      was_open = self.is_open; self.close(); ...; self.file_bin = out
@@ -455,17 +455,21 @@ Definition r_step (w : rworld) (s : rstate) (op : rop) : rstate * bool :=
   let o := s_obj s in
   match op, o_file o with
   | ROpen, _ =>
-      match r_open w o with Some o' => (mkS o' (s_eb s) (s_ec s), false) | None => (s, true) end
+      match r_open w o with Some o' => (mkS o' (s_eb s) (s_ec s) (s_sb s), false) | None => (s, true) end
   | RCompress keep, DBin =>
       (* keep_original=False: self.file_bin = x.cbin and nothing else (nbytes, _raw stay) *)
-      (mkS (if keep then o else mkR DCbin (o_nbytes o) (o_ns o) (o_raw o) (o_warn o)) keep true, false)
+      (mkS (if keep then o else mkR DCbin (o_nbytes o) (o_ns o) (o_raw o) (o_warn o)) keep true (s_sb s), false)
   | RCompress _, DCbin => (s, true)
-  | RDecompress true, DCbin => (mkS o true true, false)
+  | RDecompress true, DCbin => (mkS o true true (s_sb s), false)
   | RDecompress false, DCbin =>
-      let r := r_decompress_inplace w o in (mkS (fst r) true false, snd r)
+      let r := r_decompress_inplace w o in (mkS (fst r) true false (s_sb s), snd r)
   | RDecompress _, DBin => (s, true)
-  | RScratch, DCbin => (s, false)
-  | RScratch, DBin => (s, true)
+  (* decompress_to_scratch: bin_file = scratch/x.bin | x.bin; only `if not bin_file.exists()` leads to
+     decompress_file (whose is_mtscomp guard fails on an object pointing at x.bin); the object never changes *)
+  | RScratch true, DCbin => (mkS o (s_eb s) (s_ec s) true, false)
+  | RScratch true, DBin => (s, negb (s_sb s))
+  | RScratch false, DCbin => (mkS o true (s_ec s) (s_sb s), false)
+  | RScratch false, DBin => (s, false)          (* bin_file is the object's own file: it exists *)
   end.
 
 Fixpoint r_run (w : rworld) (s : rstate) (ops : list rop) : list (rstate * bool) :=
@@ -476,4 +480,29 @@ Fixpoint r_run (w : rworld) (s : rstate) (ops : list rop) : list (rstate * bool)
 
 Definition r_start (w : rworld) (f : dfile) (ns0 : Z) : rstate :=
   mkS (r_init w f ns0) (match f with DBin => true | DCbin => false end)
-      (match f with DBin => false | DCbin => true end).
+      (match f with DBin => false | DCbin => true end) false.
+
+(* ====================================================================== *)
+(* Part E — the compressed file as bytes + the .ch table; chunk-wise reads *)
+(* ====================================================================== *)
+(* Writer.write: the chunks are written one after the other into x.cbin and
+   chunk_offsets = [0, len(c0), len(c0)+len(c1), ...] goes into x.ch next to
+   chunk_bounds. *)
+Fixpoint offsets_from (acc : Z) (lens : list Z) : list Z :=
+  acc :: match lens with [] => [] | l :: t => offsets_from (acc + l) t end.
+Definition cbin_chunks (zip : list Z -> list Z) (nc : nat) (size : Z) (rows : list (list Z))
+  : list (list Z) := map snd (encode_file zip nc size rows).
+Definition cbin_stream zip nc size rows : list Z := concat (cbin_chunks zip nc size rows).
+Definition chunk_offsets zip nc size rows : list Z :=
+  offsets_from 0 (map (fun c => Z.of_nat (length c)) (cbin_chunks zip nc size rows)).
+
+(* os.pread(fd, length, start) *)
+Definition zslice (l : list Z) (a b : Z) : list Z :=
+  firstn (Z.to_nat (b - a)) (skipn (Z.to_nat a) l).
+
+(* mtscomp.Reader.read_chunk(k, chunk_offsets[k], chunk_offsets[k+1]-chunk_offsets[k]):
+   pread, zlib.decompress, reshape to (chunk_bounds[k+1]-chunk_bounds[k], nc) order 'F', cumsum *)
+Definition read_chunk (unzip : list Z -> list Z) (nc : nat) (stream offsets bounds : list Z) (k : nat)
+  : list (list Z) :=
+  decode_chunk unzip (Z.to_nat (nth (S k) bounds 0 - nth k bounds 0)) nc
+    (zslice stream (nth k offsets 0) (nth (S k) offsets 0)).
